@@ -34,6 +34,10 @@ class UniverseInput(CellModifierInput):
         if self.in_cell_block:
             if key:
                 val = self._tree["data"][0]
+                if not isinstance(val, syntax_node.ValueNode):
+                    raise ValueError(
+                        f"Cell universe must be an integer ≥ 0. {val} was given"
+                    )
                 val.is_negatable_identifier = True
                 self._not_truncated = val.is_negative
                 self._old_number = val
@@ -41,6 +45,8 @@ class UniverseInput(CellModifierInput):
             self._universes = []
             for node in self.data:
                 try:
+                    if not isinstance(node, syntax_node.ValueNode):
+                        raise ValueError("not a number")
                     node.is_negatable_identifier = True
                     if node.value is not None:
                         self._old_numbers.append(node)
